@@ -242,5 +242,33 @@ ResetScope(b, o, p) ==
 
 (* ---- C06 (system half) ----------------------------------------------- *)
 AllGreen(o, S) == \A c \in S : Build(o, c) = "SUCCESSFUL"
+(***************************************************************************)
+(* C05 at system level: what a queue evaluation merged on a REAL           *)
+(* repository is the longest all-green prefix of the queue (b = job begin, *)
+(* o = job end of a queue evaluation that ended "Merged").                 *)
+(***************************************************************************)
+QW(b) == {r \in Refs(b) : r.kind = "qw"}
+IsHfVer(v) == Len(v) = 4
+QueuedOn(b, v) == {r.pr : r \in {x \in QW(b) : x.ver = v}}
+QwOf(b, p, v) == CHOOSE r \in QW(b) : r.pr = p /\ r.ver = v
+(* newest-first comparison of two queued PRs on one version *)
+NotAfter(b, anc, v, x, y) == Leq(anc, QwOf(b, x, v).c, QwOf(b, y, v).c)
+MainVersions(b) == {r.ver : r \in {x \in QW(b) : ~ IsHfVer(x.ver)}}
+DevVersions(b) == {v \in MainVersions(b) : Len(v) = 2}
+TopDev(b) == CHOOSE v \in DevVersions(b) : \A w \in DevVersions(b) : w = v \/ DevLt(w, v)
+(* prefix of a queue (the PRs of version v, ordered by ancestry there) ending at x *)
+PrefixUpTo(b, anc, v, x) == {y \in QueuedOn(b, v) : NotAfter(b, anc, v, y, x)}
+GoodSet(b, anc, S, Vs) ==
+  \A v \in Vs :
+     LET on == S \cap QueuedOn(b, v)
+     IN on # {} => \E n \in on : (\A y \in on : NotAfter(b, anc, v, y, n)) /\ Build(b, QwOf(b, n, v).c) = "SUCCESSFUL"
+LongestGood(b, anc, v, Vs) ==       \* over the queue ordered on version v, judged on the versions Vs
+  LET cands == {PrefixUpTo(b, anc, v, x) : x \in QueuedOn(b, v)}
+      good == {S \in cands : GoodSet(b, anc, S, Vs)}
+  IN IF good = {} THEN {} ELSE CHOOSE S \in good : \A T \in good : Cardinality(T) <= Cardinality(S)
+ExpectedMerge(b, anc) ==
+  (IF DevVersions(b) = {} THEN {} ELSE LongestGood(b, anc, TopDev(b), MainVersions(b)))
+  \cup UNION {LongestGood(b, anc, h, {h}) : h \in {r.ver : r \in {x \in QW(b) : IsHfVer(x.ver)}}}
+ActuallyMerged(b, o) == {p \in {r.pr : r \in QW(b)} : ~ \E r \in QW(o) : r.pr = p}
 ===========================================================================
 
